@@ -107,4 +107,11 @@ func init() {
 		Assumptions: append([]string{"within one production, a hard (non not-found) error makes the caller bail out; token counts are tracked under the hypothesis that an error being propagated is the not-found one"}, commonAssumptions...),
 		Rules:       []string{"C08/endsplit", "C08/notfound", "C08/errortoken"},
 	}, ruleC08EndSplit, ruleC08NotFound, ruleC08ErrorToken)
+	register(PropertyMeta{
+		ID:          "C12",
+		Level:       "other",
+		Explanation: "Decided over every function of the two library packages (generated tokenkind_string.go exempt as a unit): (loop) all for statements are enumerated; range loops, counted loops and shrink loops are bounded; every other loop needs a witness on every abstract back-edge path: W-consume = the net number of successful cursor reads (next +1, a failed read at end of input +0, prev -1, sub-scanners/productions by their summarised minimum net consumption, with zero-consumption returns that the unique caller's dispatch guard excludes discarded) is >= 1; W-descend (paren unwrap, C01/unwrap); W-worklist (Walk, C11); one reviewed arithmetic argument (exprBinaryTrail's inner loop, whose guard facts C07/assoc checks); (cursor) parser.prev() directly follows a next() of the same function and pos is only restored to a position saved in the same production, so consumption is never negative; (recursion) in every strongly connected component of the call graph (static calls, function-table dispatch) the subgraph of calls that pass the same node on the same cursor is acyclic - every cycle descends into a child, runs on a sub-parser or follows a consumed token; (panic) explicit panics are dead by table arguments (C11/handled; inner switch repeats the outer case list), no single-value type assertions, every index/slice expression is discharged on every path by a guard idiom over the path facts (I-const, I-last, I-loop, I-rel, I-pos) or is one of the reviewed rows listed in the checker with its invariant, three of which are themselves checked (QualifiedIdent non-empty, splitQueries post-condition, variadic call sites). Not decided: wall-clock bounds, stack depth, nil dereferences beyond C11/nil and C14/nil-opts, the reviewed rows' invariants that are only argued.",
+		Assumptions: append([]string{"reviewed rows in checker/internal/pc/rules_c12b.go (reviewedIndex) and the reviewed loop of exprBinaryTrail are argued by hand, not mechanically"}, commonAssumptions...),
+		Rules:       []string{"C12/loop", "C12/cursor", "C12/recursion", "C12/panic", "C12/nonempty", "C12/post", "C12/variadic"},
+	}, ruleC12Loops, ruleC12Cursor, ruleC12Recursion, ruleC12Panic)
 }
